@@ -5,9 +5,10 @@ Probe data objects count every call / __next__ / attribute / item / __str__
 (+ __html__ / __iter__ / __len__ / __bool__ / async call body / __aiter__ /
 __anext__) event of a clean render (N events); then for every k <= N the same
 template is rendered with a private exception instance raised at the k-th
-event.  Oracle: the render raises that very object; afterwards the same
-template and two other templates of the same environment render to their clean
-outputs.  Events inside the bodies of templates imported / included without
+event.  Oracle: the render raises that very object; afterwards the sentinel
+template (eval-context sensitive macros inside every module the environment
+caches), the same template, the two other templates and the Python-side
+Template.module calls of the same environment give their clean outputs.  Events inside the bodies of templates imported / included without
 context happen only on the first render of an environment: those fault points
 each get a brand-new environment (fresh_phase)."""
 from __future__ import annotations
@@ -17,6 +18,7 @@ import asyncio
 from vt import core
 from vt.mon import c38_gen as GEN
 from vt.mon import c38_probe as P
+from vt.mon import c38_shared as SH
 
 PID = "C38"
 LEVEL = "fault_enumeration"
@@ -35,17 +37,41 @@ RULE = ("case = environment (sync or async, autoescape on/off) with 3 generated 
         "callables returning lazy message objects with __mod__ + __str__): trans blocks with bound "
         "and context variables, __html__ / __format__ objects, pluralize (count expression, named "
         "count, num), message context, trimmed, no variables, direct gettext/ngettext/pgettext/"
-        "npgettext calls with keyword variables (new-style) or % / |format (old-style)) + data "
+        "npgettext calls with keyword variables (new-style) or % / |format (old-style)); SHARED "
+        "STATE (25% of the fragments): every main template imports the generated library slib.j2 "
+        "(module + Context + eval context cached per environment) whose macros wrap events on their "
+        "probe arguments in scoped constructs: autoescape blocks (constant, mostly the opposite of the "
+        "environment default / data-dependent incl. a probe as the flag / expression that calls data / "
+        "nested / around caller() with the call block's body touching data / inside a loop left by "
+        "break + continue (loopcontrols) / around trans, filter, set and with blocks / around sibling "
+        "macro calls / around awaited callables and async iteration), scoped eval-context modifiers of a "
+        "harness extension ({% evalctx autoescape=X %} -> nodes.ScopedEvalContextModifier), a module "
+        "level namespace and cycler that the macro re-initialises before touching data; reached by "
+        "import, from-import, an include of an importing template, and - sync environments, 4th fault "
+        "target - by calling the macros of Template.module from Python; autoescape / evalctx blocks "
+        "around the global-probe events of the module bodies glib.j2 / incg.j2; eval-context "
+        "sensitive filters over probe data and autoescape blocks in the main templates themselves. "
+        "SENTINELS: every cached module (slib.j2, lib.j2, glib.j2) carries a `sense` macro that renders "
+        "join / replace / xmlattr / urlize over text + Markup constants, a pass_eval_context filter and "
+        "a pass_context function reporting eval_ctx.autoescape, a sibling macro call and (new-style "
+        "i18n) gettext; zprobe.j2 calls them through import / from-import / an included importer and "
+        "is rendered after EVERY fault, before the main templates; + data "
         "recipe; fault point = (target template, API in {render, generate, stream | render_async, "
         "generate_async, render-via-asyncio.run}, k) for EVERY k <= N events of the clean run in the "
         "warmed-up environment, PLUS for the first render in a BRAND-NEW environment (own environment "
         "per fault point): every event inside an imported / included-without-context template body "
-        "and a few others; after each fault all 3 main templates are rendered cleanly in that same "
-        "environment. distinct = (template source + recipe + i18n hash, API, k, fresh?) whose fault "
-        "actually fired")
+        "a few inside scoped constructs of slib.j2 and a few others; after each fault the sentinel "
+        "template, all 3 main templates and the module calls run cleanly in that same environment. A "
+        "sentinel difference is keyed cached-module-state-changed-after-fault:fault-in=<scoped construct "
+        "the fault fired in, told by the library's zone() calls>:seen-in=<first differing module>, a "
+        "main-template difference engine-unusable-after-fault:<event>@<fragment>:<which>; after a "
+        "violation the warmed-up environment is replaced so later records stay attributable. "
+        "distinct = (target source + recipe + i18n hash, API, k, fresh?) whose fault actually fired")
 TECHNIQUE = "probe-counted exhaustive fault injection with exception-identity and re-render oracle"
 LEVEL_TEXT = ("held on every enumerated fault point of the generated templates (each data event "
-              "of each clean run, one API per point in quick, all APIs in thorough)")
+              "of each clean run, one API per point in quick, all APIs in thorough); state that "
+              "outlives a render is observed through eval-context sensitive sentinel macros in the "
+              "cached modules, whose sensitivity is self-checked per case")
 ASSUMPTIONS = [
     "the injected exception is a private Exception subclass instance (not one of the documented "
     "lookup signals AttributeError / LookupError / TypeError / StopIteration, which are never "
@@ -57,13 +83,26 @@ ASSUMPTIONS = [
     "probes reachable without a render context (environment globals g_*, the installed gettext "
     "callables and the lazy messages they return) are data in the sense of the statement; calls of "
     "the gettext callables are fault points too",
-    "brand-new environments of one case share a harness-side in-memory BytecodeCache (public API): "
-    "compiled code only, no template or module objects",
+    "the environments of one shard share a harness-side in-memory BytecodeCache (public "
+    "BytecodeCache / Bucket API, keyed by template name + source + compile-relevant environment "
+    "configuration): compiled code objects only, no template, module or context objects",
+    "sentinels see shared state only through what the engine hands to eval-context aware callables "
+    "(documented: pass_eval_context, context.eval_ctx.autoescape, Markup-aware builtin filters); a "
+    "per-case self-check renders them under `autoescape true` and `autoescape false` and makes the "
+    "run inconclusive if the outputs do not differ",
+    "the sentinel reference is the render after the fault-free warm-up; a case whose sentinels "
+    "render differently in a brand-new environment (fault-free renders alone changed cached-module "
+    "state) is skipped and counted, not judged: no fault is involved",
+    "module-level namespace / cycler of slib.j2 are re-initialised by the macro before it touches "
+    "data (their state is the template's own, documented to persist with the cached module); "
+    "zone() / mark() are harness globals that only record",
+    "macros called through Template.module from Python are 'rendering' in the sense of the "
+    "statement (documented use of the module attribute)",
     "clean reference output = render in the warmed-up environment; a first render in a new "
     "environment that differs from it is counted, not judged (no fault involved)",
 ]
 NSHARDS = {"quick": 16, "thorough": 16}
-BUDGET_S = {"quick": 12, "thorough": 420}
+BUDGET_S = {"quick": 10, "thorough": 420}
 FLOORS = {
     "quick": {"evaluations": 3000, "distinct": 3000,
               "counters": {"faults_fired": 3000, "identity_checks": 3000,
@@ -74,7 +113,17 @@ FLOORS = {
                            "faults_fresh_env_in_module_body_async": 200,
                            "faults_in_i18n_fragment": 300,
                            "faults_in_i18n_fragment:newstyle:str": 60,
-                           "faults_in_i18n_fragment:oldstyle:str": 40}},
+                           "faults_in_i18n_fragment:oldstyle:str": 40,
+                           "post_fault_sentinel_renders": 3000,
+                           "sentinel_sensitivity_checks": 30,
+                           "faults_in_shared_state_fragment": 900,
+                           "faults_in_scoped_construct_of_cached_module": 700,
+                           "faults_in_scoped_construct_of_cached_module_sync": 450,
+                           "faults_in_scoped_construct_of_cached_module_async": 250,
+                           "fault_zone:autoescape-block": 600,
+                           "fault_zone:autoescape-block+loopcontrol": 30,
+                           "fault_zone:scoped-evalctx-block": 40,
+                           "faults_via_module_api": 250}},
     "thorough": {"evaluations": 170000, "distinct": 170000,
                  "counters": {"faults_fired": 170000, "identity_checks": 170000,
                               "post_fault_renders": 500000, "cases": 500,
@@ -91,10 +140,14 @@ SYNC_APIS = ["render", "generate", "stream"]
 ASYNC_APIS = ["render_async", "generate_async", "render"]
 
 
-def _mem_cache():
-    """Harness-side in-memory bytecode cache (public BytecodeCache API): the many
-    brand-new environments of one case share the compiled code of its templates,
-    nothing else (no template objects, no modules)."""
+_BCC = {}
+
+
+def _mem_cache(case):
+    """Harness-side in-memory bytecode cache (public BytecodeCache / Bucket API),
+    one per compile-relevant environment configuration and process: environments
+    share the compiled code objects of templates with identical name + source,
+    nothing else (no template objects, no modules, no contexts)."""
     from jinja2 import BytecodeCache
 
     class Mem(BytecodeCache):
@@ -102,18 +155,23 @@ def _mem_cache():
             self.d = {}
 
         def load_bytecode(self, bucket):
-            b = self.d.get(bucket.key)
-            if b is not None:
-                bucket.bytecode_from_string(b)
+            code = self.d.get((bucket.key, bucket.checksum))
+            if code is not None:
+                bucket.code = code
 
         def dump_bytecode(self, bucket):
-            self.d[bucket.key] = bucket.bytecode_to_string()
+            self.d[(bucket.key, bucket.checksum)] = bucket.code
 
-    return Mem()
+    i18n = case.get("i18n")
+    sig = (bool(case["is_async"]), bool(case["autoescape"]), bool(i18n),
+           bool(i18n and i18n["newstyle"]))
+    if sig not in _BCC:
+        _BCC[sig] = Mem()
+    return _BCC[sig]
 
 
 class CaseEnv:
-    def __init__(self, case, recipe, loop, bcc=None):
+    def __init__(self, case, recipe, loop):
         from jinja2 import DictLoader, Environment
 
         self.case = case
@@ -123,9 +181,12 @@ class CaseEnv:
         i18n = case.get("i18n")
         self.env = Environment(loader=DictLoader(dict(case["tpls"])),
                                enable_async=self.is_async, autoescape=bool(case["autoescape"]),
-                               extensions=["jinja2.ext.i18n"] if i18n else [],
-                               bytecode_cache=bcc)
+                               extensions=(["jinja2.ext.i18n"] if i18n else [])
+                               + ["jinja2.ext.loopcontrols", SH.harness_extension()],
+                               bytecode_cache=_mem_cache(case))
         self.ev = None
+        self.env.globals["zone"] = self._zone
+        self.env.filters["ectx"], self.env.globals["ectxf"] = SH.sentinel_callables()
         # probes that are not render variables (environment globals, gettext callables)
         # report to the run in progress through this proxy
         self.proxy = P.EvProxy()
@@ -144,14 +205,33 @@ class CaseEnv:
             self.ev.label = label
         return ""
 
+    def _zone(self, name):
+        """Called by the macros of long-lived modules when they enter / leave a
+        scoped construct: lets the harness attribute a fault to the construct."""
+        if self.ev is not None:
+            self.ev.zone = name
+        return ""
+
+    def _module_calls(self, data):
+        """Template.module from Python: the cached module of slib.j2, its macros
+        called with probe data."""
+        mod = self.env.get_template("slib.j2").module
+        parts = []
+        for mac, args in self.case["modcalls"]:
+            self._mark("module-api:" + mac)
+            parts.append(str(getattr(mod, mac)(*[SH.resolve_arg(a, data) for a in args])))
+        return SH.SEG.join(parts)
+
     def run(self, name, api, fault_at=None):
         """-> (kind, value, events)."""
         ev = self.ev = P.Events(fault_at)
         data = P.build(self.recipe, ev, self.is_async)
-        t = self.env.get_template(name)
+        t = None if name == SH.MODULE_TARGET else self.env.get_template(name)
         self.proxy.cur = ev
         try:
-            if api == "render":
+            if name == SH.MODULE_TARGET:
+                out = self._module_calls(data)
+            elif api == "render":
                 out = t.render(**data)
             elif api == "generate":
                 out = "".join(list(t.generate(**data)))
@@ -200,11 +280,23 @@ def check_fault(ctx, ce, clean, target, api, k, fresh=False):
             ctx.count("faults_in_i18n_fragment")
             ctx.count("faults_in_i18n_fragment:%s:%s"
                       % ("newstyle" if case["i18n"]["newstyle"] else "oldstyle", ev.fired_kind))
+    zone = ev.fired_zone or "none"
+    if str(ev.fired_label).startswith(("shared-", "module-api:")):
+        ctx.count("faults_in_shared_state_fragment")
+    if ev.fired_zone:
+        # the fault fired while a macro of a cached module was inside a scoped construct
+        ctx.count("faults_in_scoped_construct_of_cached_module")
+        ctx.count("faults_in_scoped_construct_of_cached_module_"
+                  + ("async" if ce.is_async else "sync"))
+        ctx.count("fault_zone:" + ev.fired_zone)
+    if target == SH.MODULE_TARGET:
+        ctx.count("faults_via_module_api")
     ctx.count("fault_event:" + ev.fired_kind)
     ctx.count("fault_api:" + api)
     ctx.count("fault_in:" + str(ev.fired_label))
     where = "%s@%s" % (ev.fired_kind, ev.fired_label)
-    ctx.dist((core.h8([case["tpls"][target], ce.recipe, case["autoescape"], ce.is_async,
+    tsrc = _target_source(case, target)
+    ctx.dist((core.h8([tsrc, ce.recipe, case["autoescape"], ce.is_async,
                        case.get("i18n")]), api, k, bool(fresh)))
     ctx.count("identity_checks")
     if kind == "exc" and val is ev.boom:
@@ -216,56 +308,134 @@ def check_fault(ctx, ce, clean, target, api, k, fresh=False):
         ctx.violation("swallowed:" + where,
                       "exception raised by the data at event %d (%s, in fragment %r) did not "
                       "propagate: %s() returned %r; template %r"
-                      % (k, ev.fired_kind, ev.fired_label, api, val[:200],
-                         case["tpls"][target][:500]), rcase)
+                      % (k, ev.fired_kind, ev.fired_label, api, val[:200], tsrc[:500]), rcase)
     else:
         ctx.violation("not-same-object:%s:%s" % (where, type(val).__name__),
                       "data raised %r at event %d (%s, fragment %r) but %s() raised a different "
                       "object %r (cause=%r context=%r); template %r"
                       % (ev.boom, k, ev.fired_kind, ev.fired_label, api, val,
                          getattr(val, "__cause__", None), getattr(val, "__context__", None),
-                         case["tpls"][target][:500]), rcase)
-    # the engine must still be usable: same template and the two others, cleanly
+                         tsrc[:500]), rcase)
+    # the engine must still be usable.  First the sentinels of every module that is
+    # cached per environment (state that outlives the faulted render) ...
     post_api = "render_async" if ce.is_async else "render"
-    for name in case["mains"]:
+    dirty = False
+    for name in case.get("probes", []):
         k2, v2, _ = ce.run(name, post_api)
-        ctx.count("post_fault_renders")
-        rel = "same" if name == target else "other"
+        ctx.count("post_fault_sentinel_renders")
         if k2 != "ok":
+            dirty = True
+            ctx.violation("engine-unusable-after-fault:%s:sentinel-template-raises:%s"
+                          % (where, type(v2).__name__),
+                          "after the fault at event %d of %s (%s; %s, fragment %r, inside %s) the "
+                          "sentinel template %s raised %r"
+                          % (k, target, api, ev.fired_kind, ev.fired_label, zone, name, v2), rcase)
+        elif v2 != clean[name]:
+            dirty = True
+            seg = SH.first_diff_segment(clean[name], v2)
+            ctx.violation("cached-module-state-changed-after-fault:fault-in=%s:seen-in=%s"
+                          % (zone, seg),
+                          "after the fault at event %d of %s (%s; %s raised in fragment %r while a "
+                          "macro of a cached module was inside: %s) the eval-context sensitive "
+                          "sentinel macros of the cached modules render %r instead of %r (first "
+                          "differing module: %s); target %r; slib.j2 %r"
+                          % (k, target, api, ev.fired_kind, ev.fired_label, zone, v2[:300],
+                             clean[name][:300], seg, tsrc[:400], case["tpls"].get("slib.j2", "")[:1500]),
+                          rcase)
+    if dirty:
+        # one precise record per fault point; the caller replaces the environment
+        return True
+    # ... then the same template and the others (and the Python-side module calls)
+    for name in post_targets(case):
+        k2, v2, _ = ce.run(name, "module" if name == SH.MODULE_TARGET else post_api)
+        ctx.count("post_fault_renders")
+        rel = "module-api" if name == SH.MODULE_TARGET else "same" if name == target else "other"
+        if k2 != "ok":
+            dirty = True
             ctx.violation("engine-unusable-after-fault:%s:%s-template-raises:%s"
                           % (where, rel, type(v2).__name__),
                           "after the fault at event %d of %s (%s), a clean render of %s raised %r"
                           % (k, target, api, name, v2), rcase)
         elif v2 != clean[name]:
+            dirty = True
             ctx.violation("engine-unusable-after-fault:%s:%s-template-differs" % (where, rel),
                           "after the fault at event %d of %s (%s), a clean render of %s gave %r "
                           "instead of %r" % (k, target, api, name, v2[:300], clean[name][:300]),
                           rcase)
+    return dirty
 
 
-def run_case(ctx, case, recipe, quick, loop):
-    try:
-        ce = CaseEnv(case, recipe, loop)
-        for name in case["tpls"]:
-            ce.env.get_template(name)
-    except Exception as e:
-        ctx.count("case_rejected_compile:" + type(e).__name__)
-        return
-    apis = ASYNC_APIS if ce.is_async else SYNC_APIS
-    clean, nev = {}, {}
-    # warm-up: the bodies of templates imported / included without context run once
-    # per environment (cached module); their events belong to fresh_phase below
-    for name in case["mains"]:
-        kind, val, ev = ce.run(name, apis[0])
+def post_targets(case):
+    return list(case["mains"]) + ([SH.MODULE_TARGET] if case.get("modcalls") else [])
+
+
+def _target_source(case, target):
+    if target == SH.MODULE_TARGET:
+        return "Template.module calls %r on slib.j2" % (case["modcalls"],)
+    return case["tpls"][target]
+
+
+def sentinel_self_check(ctx, ce):
+    """The sentinels must be able to SEE an eval context that differs from the
+    module default: inside `autoescape true` vs `autoescape false` they have to
+    render differently (else the post-fault observation is blind -> inconclusive)."""
+    t = ce.env.get_template(SH.SELFCHECK)
+    ce.proxy.cur = None
+    if ce.is_async:
+        out = ce.loop.run_until_complete(t.render_async())
+    else:
+        out = t.render()
+    on, off = out.split(SH.SEG)
+    ctx.count("sentinel_sensitivity_checks")
+    if on == off:
+        ctx.inconc("sentinel macros render %r under autoescape true and false alike: they "
+                   "cannot see the eval context" % on[:200])
+        return False
+    return True
+
+
+def apis_of(ce, target):
+    if target == SH.MODULE_TARGET:
+        return ["module"]
+    return ASYNC_APIS if ce.is_async else SYNC_APIS
+
+
+def warm_env(ctx, case, recipe, loop):
+    """New environment with every main template (+ module calls + sentinel
+    template) rendered once: the bodies of templates imported / included without
+    context run once per environment (cached module); their events belong to
+    fresh_phase.  -> CaseEnv or None."""
+    ce = CaseEnv(case, recipe, loop)
+    for name in case["tpls"]:
+        ce.env.get_template(name)
+    for name in post_targets(case) + list(case.get("probes", [])):
+        kind, val, ev = ce.run(name, apis_of(ce, name)[0])
         if kind != "ok":
             ctx.count("case_rejected_clean_raises:" + type(val).__name__)
             if len(ctx.samples) < 6:
                 ctx.sample({"rejected_clean_raises": repr(val)[:300], "i18n": case.get("i18n"),
-                            "template": case["tpls"][name]})
-            return
-    for name in case["mains"]:
+                            "template": _target_source(case, name)})
+            return None
+    return ce
+
+
+def run_case(ctx, case, recipe, quick, loop):
+    try:
+        ce = warm_env(ctx, case, recipe, loop)
+    except Exception as e:
+        ctx.count("case_rejected_compile:" + type(e).__name__)
+        if len(ctx.samples) < 6:
+            ctx.sample({"rejected_compile": repr(e)[:300]})
+        return
+    if ce is None:
+        return
+    if not sentinel_self_check(ctx, ce):
+        return
+    clean, nev = {}, {}
+    targets = post_targets(case)
+    for name in targets + list(case.get("probes", [])):
         outs = []
-        for api in apis:
+        for api in apis_of(ce, name) * (3 if name == SH.MODULE_TARGET else 1):
             kind, val, ev = ce.run(name, api)
             if kind != "ok":
                 ctx.count("case_rejected_clean_raises:" + type(val).__name__)
@@ -277,25 +447,50 @@ def run_case(ctx, case, recipe, quick, loop):
             ctx.count("case_rejected_apis_disagree")
             return
         clean[name], nev[name] = outs[0]
+    # reference hygiene: the sentinels must render in a brand-new environment (nothing
+    # rendered yet) as they do after the fault-free warm-up; if fault-free renders alone
+    # change what the cached modules' sentinels show, that is not this property's
+    # business (no fault involved) and the reference would be ambiguous
+    fresh = CaseEnv(case, recipe, loop)
+    for name in case.get("probes", []):
+        kind, val, _ = fresh.run(name, apis_of(fresh, name)[0])
+        if kind != "ok" or val != clean[name]:
+            ctx.count("case_skipped_sentinels_differ_without_any_fault(not deciding)")
+            if len(ctx.samples) < 6:
+                ctx.sample({"sentinels_differ_without_fault": True,
+                            "fresh": repr(val)[:400], "after_warm_up": clean[name][:400],
+                            "mains": {m: case["tpls"][m] for m in case["mains"]}})
+            return
     ctx.count("cases")
     ctx.count("cases_async" if ce.is_async else "cases_sync")
+    if case.get("modcalls"):
+        ctx.count("cases_with_module_api_target")
     if len(ctx.samples) < 3:
         ctx.sample({"is_async": ce.is_async, "autoescape": case["autoescape"],
                     "template": case["tpls"][case["mains"][0]], "events_clean": nev,
-                    "clean_output": clean[case["mains"][0]]})
-    for ti, target in enumerate(case["mains"]):
+                    "clean_output": clean[case["mains"][0]],
+                    "slib.j2": case["tpls"]["slib.j2"], "modcalls": case.get("modcalls"),
+                    "sentinels_clean": clean[case["probes"][0]]})
+    for ti, target in enumerate(targets):
         N = nev[target]
+        apis = apis_of(ce, target)
         for k in range(1, N + 1):
-            if quick:
+            if quick and len(apis) > 1:
                 # one API per fault point, rotating; the asyncio.run wrapper is slow: 1 in 6
                 if ce.is_async:
-                    api = apis[2] if k % 6 == 0 else apis[(k + ti) % 2]
+                    use = [apis[2] if k % 6 == 0 else apis[(k + ti) % 2]]
                 else:
-                    api = apis[(k + ti) % 3]
-                check_fault(ctx, ce, clean, target, api, k)
+                    use = [apis[(k + ti) % 3]]
             else:
-                for api in apis:
-                    check_fault(ctx, ce, clean, target, api, k)
+                use = apis
+            for api in use:
+                if check_fault(ctx, ce, clean, target, api, k):
+                    # a violation was recorded: the environment may be damaged for good;
+                    # continue in a new one so that later records stay attributable
+                    ctx.count("environment_replaced_after_violation")
+                    ce = warm_env(ctx, case, recipe, loop)
+                    if ce is None:
+                        return
         ctx.count("targets_fully_enumerated")
         if ctx.elapsed() > ctx.budget_s * 1.5:
             ctx.count("case_cut_by_time")
@@ -307,28 +502,31 @@ def fresh_phase(ctx, case, recipe, loop, clean, quick):
     """Fault points of the FIRST render in a brand-new environment: the bodies of
     templates imported / included without context run only then (the module is
     cached afterwards), so every event inside such a body ('mod:' labels) is a
-    fault point, each in its own new environment, followed by clean renders of all
-    main templates in that environment."""
-    is_async = case["is_async"]
-    apis = ASYNC_APIS if is_async else SYNC_APIS
-    bcc = _mem_cache()
-    for ti, target in enumerate(case["mains"]):
-        ce = CaseEnv(case, recipe, loop, bcc)
+    fault point, each in its own new environment, followed by clean renders of the
+    sentinel template and all main templates in that environment.  The module of
+    slib.j2 is created by the faulted render itself there."""
+    for ti, target in enumerate(post_targets(case)):
+        ce = CaseEnv(case, recipe, loop)
+        apis = apis_of(ce, target)
         kind, val, ev = ce.run(target, apis[0])
         if kind != "ok" or val != clean[target]:
             # not this property's business (no fault involved); visible in the evidence
             ctx.count("fresh_first_render_differs_from_warm(not deciding)")
             continue
         modpts = [i for i, (_, lab, _) in enumerate(ev.trace, 1) if str(lab).startswith("mod:")]
-        others = [i for i in range(1, ev.n + 1) if i not in set(modpts)]
+        zonepts = [i for i, z in enumerate(ev.zones, 1) if z and i not in set(modpts)]
+        others = [i for i in range(1, ev.n + 1) if i not in set(modpts) and i not in set(zonepts)]
         nother = 2 if quick else 8
         step = max(1, len(others) // nother)
-        pts = modpts[:60 if quick else 400] + others[ti % step::step][:nother]
+        # + a few points inside scoped constructs of the (then brand-new) cached module
+        zstep = max(1, len(zonepts) // nother)
+        pts = (modpts[:60 if quick else 400] + others[ti % step::step][:nother]
+               + zonepts[ti % zstep::zstep][:nother])
         if modpts:
             ctx.count("fresh_targets_with_module_body_events")
         for j, k in enumerate(sorted(pts)):
-            for api in ([apis[(j + ti) % 2]] if quick else apis):
-                check_fault(ctx, CaseEnv(case, recipe, loop, bcc), clean, target, api, k,
+            for api in ([apis[(j + ti) % min(2, len(apis))]] if quick else apis):
+                check_fault(ctx, CaseEnv(case, recipe, loop), clean, target, api, k,
                             fresh=True)
         if ctx.elapsed() > ctx.budget_s * 1.5:
             ctx.count("case_cut_by_time")
@@ -356,11 +554,13 @@ def replay(ctx, obj):
     loop = asyncio.new_event_loop()
     try:
         case = obj["case"]
-        ref = CaseEnv(case, obj["recipe"], loop)
-        post_api = "render_async" if ref.is_async else "render"
+        ref = warm_env(ctx, case, obj["recipe"], loop)
+        if ref is None:
+            return
         clean = {}
-        for name in case["mains"]:
-            kind, val, _ = ref.run(name, post_api)
+        for name in post_targets(case) + list(case.get("probes", [])):
+            kind, val, _ = ref.run(name, apis_of(ref, name)[-1] if name == SH.MODULE_TARGET
+                                   else ("render_async" if ref.is_async else "render"))
             if kind != "ok":
                 return
             clean[name] = val
